@@ -57,6 +57,7 @@ def judge(ln):
     if d < 1 - 1e-6: return ('fail', 'normal-not-right-hand', 'n . (vector area)/|VA| = %.9g' % d)
     # the tail: area perimeter centroid as returned by the accessor functions
     rest = R[j:]
+    cen = None
     if len(rest) >= 5:
         cen = tuple(to_float(t) for t in rest[-3:])
         mean = tuple(float(sum(p[k] for p in L.pts) / len(L.pts)) for k in range(3))
@@ -66,13 +67,21 @@ def judge(ln):
     if pend is not None:
         fid, variant = pend
         if variant == 'base' or fid not in _fam:
-            _fam[fid] = dict(area=area, per=perimeter, n=n, variant=variant)
+            _fam[fid] = dict(area=area, per=perimeter, n=n, variant=variant, cen=cen, nv=len(L.pts))
         else:
             b = _fam[fid]
             if not rel(area, b['area'], max(tol, 1e-9) * 100): return ('fail', 'area-not-invariant:' + variant, 'area %.17g vs base %.17g' % (area, b['area']))
             if not rel(perimeter, b['per'], max(tol, 1e-9) * 100): return ('fail', 'perimeter-not-invariant:' + variant, 'perimeter %.17g vs base %.17g' % (perimeter, b['per']))
             if variant in ('shift', 'collinear') and b['variant'] == 'base':
                 if sum(n[k] * b['n'][k] for k in range(3)) < 1 - 1e-6: return ('fail', 'normal-not-invariant:' + variant, 'normal changed')
+            if variant in ('shift', 'collinear', 'reverse') and b['variant'] == 'base':
+                # the same outline, re-started / reversed / with redundant collinear points: the same essential vertices
+                if len(L.pts) != b['nv']:
+                    return ('fail', 'vertex-count-not-invariant:' + variant, '%d stored vertices vs %d for the base outline' % (len(L.pts), b['nv']))
+                if cen is not None and b['cen'] is not None:
+                    sc = max(max(abs(c) for c in cen), 1.0)
+                    if any(abs(cen[k] - b['cen'][k]) > max(tol, 1e-9) * 100 * sc for k in range(3)):
+                        return ('fail', 'centroid-not-invariant:' + variant, 'centroid %s vs base %s' % (cen, b['cen']))
             if variant == 'reverse' and b['variant'] == 'base':
                 if sum(n[k] * b['n'][k] for k in range(3)) > -1 + 1e-6: return ('fail', 'normal-not-flipped:reverse', 'normal did not flip')
     return ('ok', '')
